@@ -45,6 +45,9 @@ CHECKS = {
  "C19": ("exploration", "zygote", "fresh-process differential PBT: fingerprint of a probe in a pristine forked child vs after a generated warm-up history; all ordered pairs enumerated, longer histories by Hypothesis",
          "For a pool of ~75 values of diverse/ambiguous/same-named types, every resolver, validator and collection entry point is run on a probe value in a pristine fork and in a fork that first processed a warm-up history; fingerprints (category, accept/exception class, stored form, node classes) must be identical. All ordered pairs (warm-up length 1) are enumerated in both tiers, longer warm-ups are generated.",
          "types exist before anything is processed; fork() copy of a zygote that has processed nothing; private numpy under .deps", "3 C19"),
+ "C09": ("exploration", "sched", "schedule-exploring PBT: Hypothesis-generated multi-threaded programs run under a harness-owned deterministic scheduler (all single-preemption schedules / all preemption sites, sampled 2-3 preemptions), linearizability oracle against all serial orders of a plain model",
+         "Generated 2-3 thread programs over every mutator (shared object, second object on the file, pre-taken nested handles) are executed under a deterministic scheduler that owns every lock and every line-level preemption point; every executed schedule's outcomes and final file must be explained by some serial order of the operations on a plain model, and no schedule may deadlock.",
+         "line-level preemption (not inside single C calls); only executed schedules are claimed; for programs above 1600 single-preemption schedules every distinct preemption site is covered by its first occurrences instead of every step", "2.6 / 3 C09"),
 }
 
 def main():
@@ -84,6 +87,7 @@ def main():
             {"name": "roworld", "path": "vf/props/c17.py", "serves_properties": ["C17"], "kind_free_text": "read-only bufworld + audit hooks (vf/audit.py)"},
             {"name": "famworld+attr", "path": "vf/props/c18.py", "serves_properties": ["C18"], "kind_free_text": "family-closure world and attribute/item differential programs"},
             {"name": "zygote", "path": "vf/props/c19.py", "serves_properties": ["C19"], "kind_free_text": "fork-per-case fresh-process oracle"},
+            {"name": "sched", "path": "vf/sched.py", "serves_properties": ["C09"], "kind_free_text": "deterministic cooperative scheduler (locks replaced, sys.settrace yield points), fork isolation, fault injection; oracle helpers in vf/conc.py"},
             {"name": "world", "path": "vf/world.py", "serves_properties": ["C01", "C02", "C03", "C04"], "kind_free_text": "interpreter of generated step lists against the library and a plain dict/list model (Hypothesis-driven), with replay and minimisation"},
         ],
         "checks": checks,
